@@ -91,21 +91,13 @@ theorem bs_prefix_stale :
       let d1 := (assign .bs d0 .sigma v).1
       let d2 := (initialisationBSPrefix d1).1
       Inv .bs d0 ∧ (initialisationBSPrefix d1).2 = .ok ∧ d2 .variance ≠ some (d2.get .sigma * d2.get .sigma) := by
-  refine ⟨(Dict.empty.set .sigma (1/5)).set .variance (1/25), 2/5, ?_, rfl, ?_⟩
-  · intro a v h
-    by_cases h1 : a = .variance
-    · subst h1; simp [cons, Cons.ok]
-    · by_cases h2 : a = .sigma
-      · subst h2; simp [Dict.set, Dict.empty] at h; subst h; simp [cons, Cons.ok]; norm_num
-      · simp [Dict.set, Dict.empty, h1, h2] at h
-  · simp [assign, cons, Cons.ok, initialisationBSPrefix, Dict.set, Dict.get]
-    norm_num
+  refine ⟨(Dict.empty.set .sigma (1/5)).set .variance (1/25), 2/5, ?_, rfl, by decide +kernel⟩
+  exact set_free_inv _ _ _ _ (set_inv _ _ _ _ (fun a v h => by simp [Dict.empty] at h) (by decide +kernel)) rfl
 
 /-- …whereas today's `initialisation` repairs exactly that object -/
 example : ((initialisation ⟨id, fun _ _ => 0, id⟩ .bs
       (assign .bs ((Dict.empty.set .sigma (1/5)).set .variance (1/25)) .sigma (2/5)).1).1 .variance) = some (4/25) := by
-  simp [assign, cons, Cons.ok, initialisation, Dict.set, Dict.get]
-  norm_num
+  decide +kernel
 
 /-! ### calibration -/
 
@@ -201,8 +193,7 @@ theorem rowOk_sound (row : String × String × Rat × Rat) (h : rowOk row = true
 
 example : (construct ⟨id, fun _ _ => 0, id⟩ .hem
     (fun a => match a with | .sigma => 1/10 | .p => 3/5 | .eta1 => 25 | .eta2 => 50 | .intensity => 3 | _ => 0)).2 = .ok := by
-  simp [construct, prims, assignAll, assign, cons, Cons.ok, initialisation, Dict.get, Dict.set, Dict.empty]
-  norm_num
+  decide +kernel
 
 example : (assign .cgmy Dict.empty .y 2).2 = .valueError := by
   simp [assign, cons, Cons.ok]
